@@ -214,11 +214,10 @@ macro_rules! runner_body {
                         let sp = lex.span();
                         out.end_span = (sp.start, sp.end);
                         out.post_none_ok = true;
-                        if !$opts.partial {
-                            for _ in 0..3 {
-                                if lex.next().is_some() || lex.span() != sp {
-                                    out.post_none_ok = false;
-                                }
+                        // polling again without new input must change nothing (ordinary and partial lexers)
+                        for _ in 0..(if $opts.partial { 1 } else { 3 }) {
+                            if lex.next().is_some() || lex.span() != sp {
+                                out.post_none_ok = false;
                             }
                         }
                         // accessors after the end
